@@ -102,6 +102,7 @@ package vm
 //@ spec fun rvConvert(v reflect.Value, t reflect.Type) reflect.Value
 //@ spec fun rvZero(t reflect.Type) reflect.Value
 //@ spec fun typeElem(t reflect.Type) reflect.Type
+//@ spec fun typeKey(t reflect.Type) reflect.Type
 //@ spec fun hashableKey(k reflect.Value) bool = (rvKind(k) == reflect.Interface && rvIsNil(k)) || rvComparable(k)
 //@ spec fun chanClosedOrNil(v reflect.Value) bool
 // calleeMayPanic(f): calling the function value f may panic — true of any host function, unknown to the verifier:
